@@ -1435,6 +1435,273 @@ fn shell_stream(w: &mut CasesWriter, rng: &mut Rng, per_invocation: usize, mode:
 }
 
 // ---------------------------------------------------------------------------
+// stream 3: complete getopts loops in the virtual shell
+// ---------------------------------------------------------------------------
+
+/// The option string as a table (order of the string), followed by the
+/// unknown characters as argument-less entries.
+fn getopts_table(raw: &str, unknown: &[char]) -> Vec<Spec> {
+    let cs: Vec<char> = raw.chars().collect();
+    let mut t = vec![];
+    for (k, &c) in cs.iter().enumerate() {
+        if c == ':' {
+            continue;
+        }
+        t.push(sp(Some(c), None, cs.get(k + 1) == Some(&':'), false));
+    }
+    for &c in unknown {
+        t.push(sp(Some(c), None, false, false));
+    }
+    t
+}
+
+const GMODE: M = M { long: false, ext: true, same: true };
+
+struct GRun {
+    args: Vec<String>,
+    /// ($name, $OPTARG or None if unset, $OPTIND as (arg, char))
+    events: Vec<(String, Option<String>, (usize, usize))>,
+    rest: Vec<String>,
+    quiet: bool,
+    ok: bool,
+}
+
+fn run_getopts_loop(raw: &str, args: &[String]) -> GRun {
+    let quoted: Vec<String> = args.iter().map(|a| sh_quote(a)).collect();
+    let script = format!(
+        "set -- {}\nwhile getopts {} o; do args E \"$o\" \"${{OPTARG-<unset>}}\" \"$OPTIND\"; done\n\
+         shift $((OPTIND-1))\nargs R \"$@\"\n",
+        quoted.join(" "),
+        sh_quote(raw)
+    );
+    let o = run_virtual(&script);
+    let mut events = vec![];
+    let mut rest = None;
+    let mut ok = o.panicked.is_none() && !o.deadlock && !o.timeout && o.status == 0;
+    for t in &o.trace {
+        if t.kind != "args" {
+            continue;
+        }
+        match t.args.first().map(|s| s.as_str()) {
+            Some("E") if t.args.len() == 4 => {
+                let optarg = if t.args[2] == "<unset>" { None } else { Some(t.args[2].clone()) };
+                let mut it = t.args[3].split(':');
+                let a = it.next().and_then(|x| x.parse().ok()).unwrap_or(0);
+                let c = it.next().map(|x| x.parse().unwrap_or(0)).unwrap_or(1);
+                events.push((t.args[1].clone(), optarg, (a, c)));
+            }
+            Some("R") => rest = Some(t.args[1..].to_vec()),
+            _ => ok = false,
+        }
+    }
+    if rest.is_none() {
+        ok = false;
+    }
+    GRun { args: args.to_vec(), events, rest: rest.unwrap_or_default(), quiet: o.stderr.is_empty(), ok }
+}
+
+impl GRun {
+    fn coq(&self) -> String {
+        let evs: Vec<String> = self
+            .events
+            .iter()
+            .map(|(n, a, (ai, ci))| {
+                format!(
+                    "({}, {}, ({}, {}))",
+                    coq::s(n),
+                    coq::opt(a.as_ref().map(|a| coq::s(a))),
+                    coq::nat(*ai),
+                    coq::nat(*ci)
+                )
+            })
+            .collect();
+        format!(
+            "(mkGRun {} {} {} {} {})",
+            args_coq(&self.args),
+            coq::list(&evs),
+            args_coq(&self.rest),
+            coq::b(self.quiet),
+            coq::b(self.ok)
+        )
+    }
+    fn show(&self) -> String {
+        let evs: Vec<String> = self
+            .events
+            .iter()
+            .map(|(n, a, (ai, ci))| format!("{}={}@{}:{}", n, a.clone().unwrap_or("<unset>".into()), ai, ci))
+            .collect();
+        format!(
+            "{:?} -> [{}] rest={:?} stderr={}{}",
+            self.args,
+            evs.join(" "),
+            self.rest,
+            if self.quiet { "empty" } else { "text" },
+            if self.ok { "" } else { " (FAILED)" }
+        )
+    }
+}
+
+fn emit_getopts(
+    w: &mut CasesWriter,
+    raw: &str,
+    unknown: &[char],
+    os: &[(usize, Option<String>)],
+    missing: Option<usize>,
+    ops: &[String],
+    spellings: &[Vec<String>],
+) {
+    let runs: Vec<GRun> = spellings.iter().map(|v| run_getopts_loop(raw, v)).collect();
+    w.count(&format!("3:spellings{}", runs.len().min(8)));
+    w.count(if raw.starts_with(':') { "3:silent" } else { "3:verbose" });
+    let n_known = getopts_table(raw, &[]).len();
+    if os.iter().any(|(i, _)| *i >= n_known) {
+        w.count("3:with-unknown-option");
+    }
+    if missing.is_some() {
+        w.count("3:missing-argument");
+    }
+    let unk: Vec<String> = unknown.iter().map(|c| coq::n(*c as u64)).collect();
+    let os_coq: Vec<String> = os
+        .iter()
+        .map(|(i, a)| coq::pair(&coq::nat(*i), &coq::opt(a.as_ref().map(|a| coq::s(a)))))
+        .collect();
+    let runs_coq: Vec<String> = runs.iter().map(|r| r.coq()).collect();
+    let term = format!(
+        "(CGetopts {} {} {} {} {} {})",
+        coq::s(raw),
+        coq::list(&unk),
+        coq::list(&os_coq),
+        coq::opt(missing.map(coq::nat)),
+        args_coq(ops),
+        coq::list(&runs_coq)
+    );
+    let shown: Vec<String> = runs.iter().map(|r| r.show()).collect();
+    let json = format!(
+        "{{\"stream\":\"3\",\"optstring\":{},\"unknown\":{},\"options\":{},\"missing\":{},\"operands\":{},\"runs\":{}}}",
+        json_str(raw),
+        json_str(&format!("{unknown:?}")),
+        json_str(&format!("{os:?}")),
+        json_str(&format!("{missing:?}")),
+        json_str_list(ops),
+        json_str_list(&shown)
+    );
+    let key = if runs.len() >= 2 { Some(format!("3|{raw}|{os:?}|{missing:?}|{ops:?}")) } else { None };
+    w.push(&term, &json, &[], key);
+}
+
+fn getopts_stream(w: &mut CasesWriter, rng: &mut Rng, n: usize) {
+    // hand-written: an unknown character inside a group, then more characters
+    for raw in ["ab:", ":ab:"] {
+        let unknown = ['x'];
+        // table: a(0) b:(1) x(2)
+        let os = vec![(0, None), (2, None), (1, Some("arg".to_string()))];
+        let sp: Vec<Vec<String>> = [
+            vec!["-axb", "arg"],
+            vec!["-a", "-xb", "arg"],
+            vec!["-axbarg"],
+            vec!["-a", "-x", "-b", "arg"],
+            vec!["-ax", "-barg", "--"],
+        ]
+        .iter()
+        .map(|v| strings(v))
+        .collect();
+        emit_getopts(w, raw, &unknown, &os, None, &[], &sp);
+        let os2 = vec![(2, None), (2, None), (0, None)];
+        let sp2: Vec<Vec<String>> = [vec!["-xxa", "op", "-a"], vec!["-x", "-xa", "--", "op", "-a"], vec!["-xx", "-a", "op", "-a"]]
+            .iter()
+            .map(|v| strings(v))
+            .collect();
+        emit_getopts(w, raw, &unknown, &os2, None, &strings(&["op", "-a"]), &sp2);
+        // missing option-argument at the end, after an unknown character
+        let os3 = vec![(0, None), (2, None)];
+        let sp3: Vec<Vec<String>> =
+            [vec!["-axb"], vec!["-a", "-xb"], vec!["-a", "-x", "-b"], vec!["-ax", "-b"]].iter().map(|v| strings(v)).collect();
+        emit_getopts(w, raw, &unknown, &os3, Some(1), &[], &sp3);
+        // a hyphen and a colon as (unknown) option characters inside a group
+        let unknown2 = ['-', ':'];
+        let os4 = vec![(0, None), (2, None), (3, None), (1, Some("-".to_string()))];
+        let sp4: Vec<Vec<String>> = [vec!["-a-:b-"], vec!["-a-:b", "-"], vec!["-a-", "-:", "-b", "-"]].iter().map(|v| strings(v)).collect();
+        emit_getopts(w, raw, &unknown2, &os4, None, &[], &sp4);
+    }
+    let argvals = ["X", "", "-", "--", "-a", "a b", ":", "?"];
+    let opvals = ["X", "-", "", "-a", "--", "Y", "-x"];
+    for k in 0..n {
+        let mut r = rng.fork(0x3000_0000 + k as u64);
+        // option string
+        let mut letters = vec!['a', 'b', 'c', 'o', 'V'];
+        let mut raw = String::new();
+        if r.chance(1, 2) {
+            raw.push(':');
+        }
+        let nk = 1 + r.below(4);
+        for _ in 0..nk {
+            let c = letters.remove(r.below(letters.len()));
+            raw.push(c);
+            if r.chance(2, 5) {
+                raw.push(':');
+            }
+        }
+        let unknown: Vec<char> = match r.below(4) {
+            0 => vec![],
+            1 => vec!['x'],
+            2 => vec!['x', 'z'],
+            _ => vec!['x', ':'],
+        };
+        let table = getopts_table(&raw, &unknown);
+        let n_known = table.len() - unknown.len();
+        let no = r.below(6);
+        let os: Vec<(usize, Option<String>)> = (0..no)
+            .map(|_| {
+                let i = if !unknown.is_empty() && r.chance(1, 3) { n_known + r.below(unknown.len()) } else { r.below(n_known) };
+                let a = if table[i].arg { Some(r.pick(&argvals).to_string()) } else { None };
+                (i, a)
+            })
+            .collect();
+        let takers: Vec<usize> = (0..n_known).filter(|&i| table[i].arg && first_short(&table, table[i].short.unwrap()) == Some(i)).collect();
+        let missing = if !takers.is_empty() && r.chance(1, 6) { Some(*r.pick(&takers)) } else { None };
+        let ops: Vec<String> = if missing.is_some() {
+            vec![]
+        } else {
+            (0..r.below(3)).map(|_| r.pick(&opvals).to_string()).collect()
+        };
+        let mut spellings: Vec<Vec<String>> = vec![];
+        for _ in 0..24 {
+            if spellings.len() >= 5 {
+                break;
+            }
+            let v = match missing {
+                None => spell(&mut r, &table, GMODE, &os, &ops),
+                Some(i) => {
+                    let mut os2 = os.clone();
+                    os2.push((i, Some("ZZ".to_string())));
+                    match spell(&mut r, &table, GMODE, &os2, &[]) {
+                        Some(mut v) if v.last().map(|s| s.as_str()) == Some("ZZ") && v.len() >= 2 => {
+                            v.pop();
+                            // the argument must have been a separate field
+                            if v.last().is_some_and(|f| f.starts_with('-') && f.ends_with(table[i].short.unwrap()) && f != "--") {
+                                Some(v)
+                            } else {
+                                None
+                            }
+                        }
+                        _ => None,
+                    }
+                }
+            };
+            if let Some(v) = v {
+                if !spellings.contains(&v) {
+                    spellings.push(v);
+                }
+            }
+        }
+        if spellings.is_empty() {
+            continue;
+        }
+        emit_getopts(w, &raw, &unknown, &os, missing, &ops, &spellings);
+    }
+}
+
+// ---------------------------------------------------------------------------
 // generators
 // ---------------------------------------------------------------------------
 
@@ -1850,6 +2117,8 @@ fn main() {
         shell_stream(&mut w, &mut r, args.scale(3, 6), PORTABLE);
         bespoke_stream(&mut w);
         cli_stream(&mut w);
+        let mut r3 = rng.fork(0x3000_0000);
+        getopts_stream(&mut w, &mut r3, if search { 1500 } else { args.scale(300, 3000) });
     }
 
     w.finish(
